@@ -137,7 +137,10 @@ func c18Run(c *Ctx) {
 		}
 		return cands[r.Intn(len(cands))]
 	}
-	isVocabOpt := func(o *Opt) bool { return o.T.K == KVocab && !o.Optional }
+	isVocabOpt := func(o *Opt) bool {
+		// (an optional-argument option takes its value only attached: -cV, -c=V, --name=V)
+		return o.T.K == KVocab && (!o.Optional || class != "value-separate")
+	}
 	switch class {
 	case "long-partial", "bare-dashes":
 		part := ""
